@@ -100,6 +100,14 @@ class DispatchProgram:
         if isinstance(e, ast.Call) and isinstance(e.func, ast.Attribute) and _is(e.func.value, "value") and not e.args and not e.keywords \
                 and e.func.attr in self.hasattr_names:
             return "return ← pyCallNoArg value %s" % lean_str(e.func.attr)
+        # `return value.<name>().replace(microsecond=0)`: the called method's answer, cut to whole seconds (repair C16-F11)
+        if isinstance(e, ast.Call) and isinstance(e.func, ast.Attribute) and e.func.attr == "replace" and not e.args \
+                and len(e.keywords) == 1 and e.keywords[0].arg == "microsecond" and isinstance(e.keywords[0].value, ast.Constant) \
+                and e.keywords[0].value.value == 0:
+            inner = e.func.value
+            if isinstance(inner, ast.Call) and isinstance(inner.func, ast.Attribute) and _is(inner.func.value, "value") and not inner.args \
+                    and not inner.keywords and inner.func.attr in self.hasattr_names:
+                return "return (← pyCallNoArg value %s).map (fun dt_ => { dt_ with micro := 0 })" % lean_str(inner.func.attr)
         raise Untranslatable("return " + src)
 
     def stmt(self, st, ind, out):
